@@ -76,7 +76,7 @@ def absorb(res: dict, out: dict, case, case_id: str, max_samples: int = 6):
         v = dict(v)
         v["case_id"] = case_id
         if len(res["violations"]) < 40:
-            v["case"] = case
+            v["case"] = v.get("case") or case
             res["violations"].append(v)
         else:
             bump(res["counters"], "violations_not_stored")
